@@ -336,9 +336,17 @@ impl Clock {
 		} = &mut self.state
 		{
 			*tick_timer += self.speed.value().as_ticks_per_second() * dt;
-			while *tick_timer >= 1.0 {
-				*tick_timer -= 1.0;
-				*ticks += 1;
+			if *tick_timer >= 1.0 {
+				// add all the whole ticks at once: the number of ticks per update is
+				// unbounded (very high speeds, or zero seconds per tick)
+				let whole_ticks = tick_timer.floor();
+				if whole_ticks.is_finite() {
+					*ticks = ticks.saturating_add(whole_ticks as u64);
+					*tick_timer -= whole_ticks;
+				} else {
+					*ticks = u64::MAX;
+					*tick_timer = 0.0;
+				}
 				new_tick_count = Some(*ticks);
 			}
 		} else {
